@@ -113,6 +113,9 @@ func (e *Engine) verifyFunc(fn *ssa.Function) (res *FuncResult) {
 	if c != nil && c.Fuel > 0 {
 		fuel = c.Fuel
 	}
+	if c != nil {
+		x.fuelFor = c.FuelFor
+	}
 	// requires
 	pre := &Frame{x: x, fn: fn, regs: map[ssa.Value]Val{}, ghost: true, fuel: fuel}
 	if c != nil {
